@@ -20,15 +20,15 @@ import (
 
 func init() { Registry["C15"] = c15 }
 
-var c15WitnessAnswers = []string{"valid", "same-bytes-as-previous-log", "same-bytes-as-next-log", "missing", "wrong-log-key", "no-witness-sig", "invalid-witness-sig", "corrupted", "other-logs-checkpoint", "witness-error", "two-witness-sigs", "wrong-origin", "foreign-witness-sig-only"}
+var c15WitnessAnswers = []string{"valid", "valid-70KiB", "valid-unknown-sig-lines", "same-bytes-as-previous-log", "same-bytes-as-next-log", "missing", "wrong-log-key", "no-witness-sig", "invalid-witness-sig", "corrupted", "other-logs-checkpoint", "witness-error", "two-witness-sigs", "wrong-origin", "foreign-witness-sig-only"}
 var c15DistAnswers = []string{"200", "404", "500", "conn-error", "redirect-302", "redirect-307", "204", "200-after-body-unread"}
 
 type c15Log struct {
-	cfg  config.Log
-	l    wh.LogCfg
-	wans string
-	dans string
-	cp   []byte // what the witness returns (nil = none)
+	cfg   config.Log
+	l     wh.LogCfg
+	wans  string
+	dans  string
+	cp    []byte // what the witness returns (nil = none)
 	valid []byte // this log's valid cosigned checkpoint
 }
 
@@ -141,6 +141,19 @@ func c15RunOpt(run *ev.Run, u *uni.U, origins []string, wans, dans []string, war
 		switch lg.wans {
 		case "valid":
 			lg.cp = u.Sign(text, key.Signer, u.W1.CosigSigner)
+		case "valid-70KiB":
+			// 70 KiB of extension lines: legitimate, must travel unabridged.
+			var ext []string
+			for j := 0; j < 140; j++ {
+				ext = append(ext, fmt.Sprintf("x%05d %s", j, strings.Repeat(string(rune('a'+j%26)), 504)))
+			}
+			lg.cp = u.Sign(uni.Body(o, uint64(3+i), u.Main.Root(3+i), ext...), key.Signer, u.W1.CosigSigner)
+		case "valid-unknown-sig-lines":
+			// Signature lines by keys the distributor does not know, before
+			// and after the witness's line: "exactly the bytes".
+			plain := uni.AppendSigLines(u.Sign(text, key.Signer), uni.JunkSigLines(2))
+			_, ws, _ := uni.SplitNote(u.Sign(text, u.W1.CosigSigner))
+			lg.cp = uni.AppendSigLines(uni.AppendSigLines(plain, ws[0]+"\n"), uni.JunkSigLines(1))
 		case "wrong-log-key":
 			other := u.K2
 			if key.Name == u.K2.Name {
@@ -235,7 +248,7 @@ func c15RunOpt(run *ev.Run, u *uni.U, origins []string, wans, dans []string, war
 		// "two-witness-sigs": the property says "carry a valid signature by
 		// the configured witness key"; a second signature by another witness
 		// is outside the claim, so it is not judged either way.
-		okW := l.wans == "valid"
+		okW := strings.HasPrefix(l.wans, "valid")
 		sig := func(k string) string {
 			return fmt.Sprintf("%s witness-answer=%s distributor-answer=%s position=%s", k, l.wans, l.dans, posKind(i, len(logs)))
 		}
@@ -405,7 +418,7 @@ func c15(tier string) int {
 						continue
 					}
 					// Distributor answers matter only when something is sent.
-					if w != "valid" && w != "two-witness-sigs" && d != "200" {
+					if !strings.HasPrefix(w, "valid") && w != "two-witness-sigs" && d != "200" {
 						continue
 					}
 					rec(i+1, dev+1, append(wans, w), append(dans, d))
